@@ -333,6 +333,8 @@ def gen_history(seed, tier, classes=None, weights=None, n_ops=(6, 16),
         p["f32"] = True
       elif substream(seed, "hist-huge-%d" % p["seed"]).random() < 0.4:
         p["huge"] = True
+      elif substream(seed, "hist-i64-%d" % p["seed"]).random() < 0.5:
+        p["int64_far"] = True
     return p
 
   def methods(s):
